@@ -120,6 +120,20 @@ impl BlockIndexIterImpl {
                     && r->Some_0->Ok_0.end_key.rank() == old(self).c.end(old(self).pos).key.user_key.rank()),
     { unimplemented!() }
 }
+/// `iter.map_while(Result::ok)` (std): yields the Ok payloads and ENDS at the first Err - an adapter that swallows the error
+struct MapWhileOk { ghost c: Content, ghost pos: int }
+#[verifier::external_body]
+fn map_while_ok(it: BlockIndexIterImpl) -> (r: MapWhileOk) ensures r.c == it.c, r.pos == it.pos { unimplemented!() }
+impl MapWhileOk {
+    #[verifier::external_body]
+    fn next(&mut self) -> (r: Option<KeyedBlockHandle>)
+        ensures final(self).c == old(self).c,
+            old(self).pos >= old(self).c.nblocks() ==> r is None && final(self).pos == old(self).pos,
+            // inside the index the next handle is yielded - or the iteration ends because loading it failed
+            old(self).pos < old(self).c.nblocks() ==> (r is None && final(self).pos == old(self).pos) || (r is Some && final(self).pos == old(self).pos + 1
+                && r->Some_0.inner.what == What::Data(old(self).pos) && r->Some_0.end_key.rank() == old(self).c.end(old(self).pos).key.user_key.rank()),
+    { unimplemented!() }
+}
 
 struct Metadata { seqnos: (SeqNo, SeqNo) }
 struct Regions { filter_tli: Option<BlockHandle>, filter: Option<BlockHandle> }
@@ -257,7 +271,8 @@ impl Table {
     }
 //@ END
 
-//@ FROM src/table/mod.rs :: impl Table :: fn point_read :: OBL C01.12, C12.10, C14.5
+//@ FROM src/table/mod.rs :: impl Table :: fn point_read :: OBL C01.12, C12.10, C14.5, C10.15
+//@ SUBST `for block_handle in iter . map_while ( Result :: ok ) {` ==> `let mut iter__ = map_while_ok(iter); loop { let Some(block_handle) = iter__.next() else { break; };`
 //@ SUBST `for block_handle in iter {` ==> `let mut iter__ = iter; loop { let Some(block_handle) = iter__.next() else { break; };`
     fn point_read(&self, key: KeyRef, seqno: SeqNo) -> /*+*/(r:/*-*/ Result<Option<InternalValue>, Error>/*+*/)
         requires self.wf()
